@@ -230,6 +230,38 @@ pub fn flat_ep_unit(ep: &EnergyPerformance, p: i32, pm: i32, unit: f64) -> Flat 
     f
 }
 
+/// The wording of the comments the library generates is never compared (neutral change):
+/// the two generated comments are learnt from the library itself, once, and logged as the
+/// classes "@completion" / "@aux".
+pub fn generated_comments() -> &'static (String, String) {
+    use std::sync::OnceLock;
+    static G: OnceLock<(String, String)> = OnceLock::new();
+    G.get_or_init(|| {
+        let completion = "0, CONSUMO, CAL, EAMBIENTE, 1.0"
+            .parse::<Components>()
+            .ok()
+            .and_then(|c| c.data.iter().filter(|e| e.is_generated()).map(|e| e.comment().to_string()).next())
+            .unwrap_or_else(|| "@none1".into());
+        let aux = "1, CONSUMO, CAL, GASNATURAL, 1.0\n1, CONSUMO, ACS, GASNATURAL, 1.0\n1, SALIDA, CAL, 1.0\n1, SALIDA, ACS, 1.0\n1, AUX, 1.0"
+            .parse::<Components>()
+            .ok()
+            .and_then(|c| c.data.iter().filter(|e| e.is_aux()).map(|e| e.comment().to_string()).next())
+            .unwrap_or_else(|| "@none2".into());
+        (completion, aux)
+    })
+}
+
+pub fn comment_class(cm: &str) -> String {
+    let (c, a) = generated_comments();
+    if !cm.is_empty() && cm == c {
+        "@completion".into()
+    } else if !cm.is_empty() && cm == a {
+        "@aux".into()
+    } else {
+        cm.to_string()
+    }
+}
+
 /// abstract view of a parsed (normalised) component set
 pub fn abs_of_components(c: &Components) -> Vec<AbsComp> {
     let mut out = vec![];
@@ -238,19 +270,19 @@ pub fn abs_of_components(c: &Components) -> Vec<AbsComp> {
         out.push(match e {
             Energy::Used(EUsed { id, carrier, service, values, comment }) => AbsComp {
                 kind: "USED".into(), id: *id as i64, cr: carrier.to_string(), srv: service.to_string(),
-                src: "-".into(), v: v(values), cm: comment.clone(),
+                src: "-".into(), v: v(values), cm: comment_class(comment),
             },
             Energy::Prod(EProd { id, source, values, comment }) => AbsComp {
                 kind: "PROD".into(), id: *id as i64, cr: "-".into(), srv: "-".into(),
-                src: source.to_string(), v: v(values), cm: comment.clone(),
+                src: source.to_string(), v: v(values), cm: comment_class(comment),
             },
             Energy::Aux(EAux { id, service, values, comment }) => AbsComp {
                 kind: "AUX".into(), id: *id as i64, cr: "-".into(), srv: service.to_string(),
-                src: "-".into(), v: v(values), cm: comment.clone(),
+                src: "-".into(), v: v(values), cm: comment_class(comment),
             },
             Energy::Out(EOut { id, service, values, comment }) => AbsComp {
                 kind: "OUT".into(), id: *id as i64, cr: "-".into(), srv: service.to_string(),
-                src: "-".into(), v: v(values), cm: comment.clone(),
+                src: "-".into(), v: v(values), cm: comment_class(comment),
             },
         });
     }
